@@ -709,6 +709,7 @@ class MeanFieldTempoBackend():
         self._field = initial_field
         self._state_list = initial_state_list
         self._step = None
+        self._inconsistent = False
         self._propagators_list = propagators_list
         self._degeneracy_map_list = degeneracy_maps_list
         # List of BaseTempoBackends use to calculate each system dynamics
@@ -758,6 +759,13 @@ class MeanFieldTempoBackend():
                 for propagators, state in \
                     zip(self._propagators_list, current_state_list)]
         # Use tempo tensor network to compute each system state
+        # (this advances the networks in place: if anything fails before the
+        # step is complete the backend can not be used any further)
+        if self._inconsistent:
+            raise RuntimeError(
+                "An earlier step failed after the tensor networks had been " \
+                + "advanced. Please restart the computation.")
+        self._inconsistent = True
         next_state_list = [
             backend.compute_system_step(next_step, *prop_tuple) \
                 for backend, prop_tuple in \
@@ -766,6 +774,7 @@ class MeanFieldTempoBackend():
         next_field = self._compute_field(current_step,
                                          current_state_list, current_field,
                                          next_state_list)
+        self._inconsistent = False
         self._state_list = next_state_list
         self._field = next_field
         self._step = next_step
